@@ -309,6 +309,10 @@ def check_plan(ctx, plan):
     res = ctx.execute("asanlite", [ops], timeout=120)
     what = "C08 %s case (base %s, %s)" % (fam, plan["base"], json.dumps(plan.get("fault") or plan.get("arg") or plan["edits"])[:300])
     if crash_violation(rep, res, what):
+        # the key of a crash names the call site and the fault family that reached it (a listed site reached by another
+        # family of faults can be told apart where that matters)
+        for v in rep.violations:
+            v["key"] += "|" + fam + (":" + plan["fault"]["kind"] if fam == "file" else "")
         return rep
     R = res.client(0)
     for o in R:
@@ -358,7 +362,7 @@ def check_plan(ctx, plan):
             if op[0] == "transcript":
                 ka, kb = dict(zip(fa[0::2], fa[1::2])), dict(zip(fb[0::2], fb[1::2]))
                 for key in kb:
-                    if key == "id" or (i == 1 and key in ("n.SelectedOutputFileName", "n.DumpFileName") and "-file" in base_text(plan["base"])):
+                    if key == "id" or (i == 1 and key in ("n.SelectedOutputFileName", "n.DumpFileName") and ("-file" in base_text(plan["base"]) or any("-file" in str(e.get("text", "")) for e in plan["edits"]))):
                         continue      # names given by -file in the input are user-set names (see C07)
                     if key == "id":
                         continue
